@@ -1,9 +1,12 @@
 package world
 
 import (
+	"encoding/hex"
 	"fmt"
 
 	sdk "github.com/cosmos/cosmos-sdk/types"
+	transfertypes "github.com/cosmos/ibc-go/v7/modules/apps/transfer/types"
+	clienttypes "github.com/cosmos/ibc-go/v7/modules/core/02-client/types"
 	channeltypes "github.com/cosmos/ibc-go/v7/modules/core/04-channel/types"
 	host "github.com/cosmos/ibc-go/v7/modules/core/24-host"
 )
@@ -41,5 +44,89 @@ func (w *World) OpenLocalhostChannels(ctx sdk.Context) error {
 		}
 	}
 	ck.SetNextChannelSequence(ctx, 2)
+	return nil
+}
+
+// Packet describes an ICS-20 packet in flight between the two looped-back channel ends.
+type Packet struct {
+	P   channeltypes.Packet
+	Ack []byte // acknowledgement bytes written by the receiving end (nil until received)
+}
+
+// IBCSend sends coins with MsgTransfer (through the app's message router, i.e. Haqq's transfer
+// wrapper and the erc20 middleware) on srcCh and returns the packet as the counterparty end will
+// see it.  The packet is rebuilt from the message; the receiving handler verifies it against the
+// commitment the sender really stored, so a wrong reconstruction cannot go unnoticed.
+func (w *World) IBCSend(ctx sdk.Context, srcCh string, sender sdk.AccAddress, receiver string, coin sdk.Coin, timeoutTs uint64) (*Packet, error) {
+	dst := IBCChannelB
+	if srcCh == IBCChannelB {
+		dst = IBCChannelA
+	}
+	seq, _ := w.App.IBCKeeper.ChannelKeeper.GetNextSequenceSend(ctx, IBCPort, srcCh)
+	full := coin.Denom
+	if h := mustHash(coin.Denom); h != nil {
+		if tr, ok := w.App.TransferKeeper.GetDenomTrace(ctx, h); ok {
+			full = tr.GetFullDenomPath()
+		}
+	}
+	msg := transfertypes.NewMsgTransfer(IBCPort, srcCh, coin, sender.String(), receiver, clienttypes.ZeroHeight(), timeoutTs, "")
+	if _, err := w.RunMsg(ctx, msg); err != nil {
+		return nil, err
+	}
+	data := transfertypes.NewFungibleTokenPacketData(full, coin.Amount.String(), sender.String(), receiver, "")
+	return &Packet{P: channeltypes.NewPacket(data.GetBytes(), seq, IBCPort, srcCh, IBCPort, dst, clienttypes.ZeroHeight(), timeoutTs)}, nil
+}
+
+// IBCRecv delivers the packet to the destination end (MsgRecvPacket with the localhost sentinel
+// proof) and records the acknowledgement it wrote.
+func (w *World) IBCRecv(ctx sdk.Context, p *Packet, relayer sdk.AccAddress) error {
+	res, err := w.RunMsg(ctx, channeltypes.NewMsgRecvPacket(p.P, []byte{0x01}, clienttypes.NewHeight(0, 1), relayer.String()))
+	if err != nil {
+		return err
+	}
+	for _, ev := range res.GetEvents() {
+		if ev.Type != channeltypes.EventTypeWriteAck {
+			continue
+		}
+		for _, a := range ev.Attributes {
+			if a.Key == channeltypes.AttributeKeyAckHex {
+				bz, err := hex.DecodeString(a.Value)
+				if err != nil {
+					return err
+				}
+				p.Ack = bz
+			}
+		}
+	}
+	if p.Ack == nil {
+		return fmt.Errorf("no acknowledgement written")
+	}
+	return nil
+}
+
+// IBCAck delivers the recorded acknowledgement to the sending end.
+func (w *World) IBCAck(ctx sdk.Context, p *Packet, relayer sdk.AccAddress) error {
+	_, err := w.RunMsg(ctx, channeltypes.NewMsgAcknowledgement(p.P, p.Ack, []byte{0x01}, clienttypes.NewHeight(0, 1), relayer.String()))
+	return err
+}
+
+// IBCTimeout times the packet out on the sending end (the block time must have passed the
+// packet's timeout timestamp and the packet must not have been received).
+func (w *World) IBCTimeout(ctx sdk.Context, p *Packet, relayer sdk.AccAddress) error {
+	_, err := w.RunMsg(ctx, channeltypes.NewMsgTimeout(p.P, 1, []byte{0x01}, clienttypes.NewHeight(0, 1), relayer.String()))
+	return err
+}
+
+// VoucherDenom is the ibc/HASH denomination base arrives under when sent from srcCh to its peer.
+func VoucherDenom(dstCh, base string) string {
+	return transfertypes.ParseDenomTrace(fmt.Sprintf("%s/%s/%s", IBCPort, dstCh, base)).IBCDenom()
+}
+
+func mustHash(denom string) []byte {
+	if len(denom) > 4 && denom[:4] == "ibc/" {
+		if h, err := transfertypes.ParseHexHash(denom[4:]); err == nil {
+			return h
+		}
+	}
 	return nil
 }
